@@ -135,10 +135,10 @@ def rdPkOpObs : Rd PkOpObs := do
   match t with
   | "P" => do
     let c ← Rd.opt (do let b ← Rd.u16; let s ← Rd.bool; pure (b, s))
-    let pkts ← Rd.list rdPkt
+    let pkts ← listTR rdPkt
     pure (.packetize c pkts)
   | "S" => pure .skip
-  | "G" => do let pkts ← Rd.list rdPkt; pure (.padding pkts)
+  | "G" => do let pkts ← listTR rdPkt; pure (.padding pkts)
   | "E" => pure .enableAbs
   | _ => Rd.fail
 
